@@ -25,4 +25,7 @@ def setLast (l : List Bytes) (b : Bytes) : List Bytes := l.dropLast ++ [b]
 /-- `back()` / `pop_back()` on an empty vector is undefined -/
 def nonEmpty (l : List Bytes) : Option Unit := if l.isEmpty then none else some ()
 
+/-- `memcpy(dest, &object, n)` into a caller's buffer: the `n` bytes copied (undefined if the object is shorter) -/
+def takeExact (b : Bytes) (n : Nat) : Option Bytes := if n ≤ b.length then some (b.take n) else none
+
 end AsamCmp.Src
